@@ -25,6 +25,7 @@ inductive Err where
   | odxError              -- `odxraise(msg)` / `odxraise(msg, OdxError)` in strict mode
   | encodeError           -- `odxraise(msg, EncodeError)`
   | decodeError           -- `odxraise(msg, DecodeError)`
+  | attributeError        -- `x.attr` / `x.method(…)` where `x` is `None`
   | foreign               -- any other exception of a called function that is modelled by hand (see `call`)
 deriving Repr, DecidableEq, Inhabited
 
@@ -40,6 +41,11 @@ instance {α : Type} [DecidableEq α] : DecidableEq (M α)
 def unwrap {α : Type} : Option α → M α
   | some a => pure a
   | none => throw .typeError
+
+/-- object of an attribute access / method call `x.m(…)` for an `Optional` record `x`: `None.m` raises `AttributeError` -/
+def unwrapAttr {α : Type} : Option α → M α
+  | some a => pure a
+  | none => throw .attributeError
 
 /-- a call to a function that is NOT translated but stands for a hand-written model function (the spec of the translation
     names it): its value is the model's value, its exception the model's error class embedded by `f` -/
@@ -133,6 +139,28 @@ def insertByKey {α : Type} (r : Bool) (x : Nat × α) : List (Nat × α) → Li
 def sortedByKeyM {α : Type} (f : α → M Nat) (r : Bool) (xs : List α) : M (List α) := do
   let keys ← xs.mapM f
   pure (((keys.zip xs).foldr (insertByKey r) []).map (·.2))
+
+/-- `a == b` on `Optional` values whose `==` on non-`None` values is `eq` (named by the spec of the translation): `None == None`
+    is `True`, a value and `None` are never equal (the values of the subset do not define an `__eq__` that accepts `None`) -/
+def optEq {α : Type} (eq : α → α → Bool) : Option α → Option α → Bool
+  | some a, some b => eq a b
+  | none, none => true
+  | _, _ => false
+
+/-- `d[k]` on a record that stands for a Python dict, where the spec of the translation gives the lookup as an `Option`
+    (`none` = the key is absent): `KeyError` -/
+def unwrapKey {α : Type} : Option α → M α
+  | some a => pure a
+  | none => throw .keyError
+
+/-- `[x for x in xs if c(x)]` where `c(x)` may raise: the conditions are evaluated in list order, the first exception propagates
+    (nothing is returned), otherwise the elements whose condition is true, in order -/
+def filterM {α : Type} (c : α → M Bool) : List α → M (List α)
+  | [] => pure []
+  | x :: xs => do
+    let b ← c x
+    let r ← filterM c xs
+    pure (if b then x :: r else r)
 
 /-- divisor of `//` and `%`: zero raises `ZeroDivisionError` -/
 def nonZero (n : Nat) : M Nat := if n = 0 then throw .zeroDivisionError else pure n
